@@ -21,6 +21,7 @@ import (
 	"sort"
 	"strings"
 	"sync"
+	"sync/atomic"
 	"time"
 	"unsafe"
 )
@@ -102,14 +103,16 @@ type Sim struct {
 	Q chan Msg
 }
 
-var cur *Sim
+// curp is read by every hook; goroutines started during package initialisation
+// may read it while the node attaches, hence atomic.
+var curp atomic.Pointer[Sim]
 
 // Attach installs the simulator. Must be called before any simulated
 // goroutine exists (happens-before through the go statements).
-func Attach(s *Sim) { cur = s }
+func Attach(s *Sim) { curp.Store(s) }
 
 // Active reports whether a simulator is attached.
-func Active() bool { return cur != nil }
+func Active() bool { return curp.Load() != nil }
 
 // RealGoid returns the runtime id of the calling goroutine, parsed from a stack dump.
 func RealGoid() uint64 {
@@ -132,7 +135,7 @@ func park(k Kind, site int32, addr uintptr, arg uint64) uint64 {
 }
 
 func parkMsg(m Msg) (v uint64) {
-	s := cur
+	s := curp.Load()
 	if s == nil {
 		return 0
 	}
@@ -168,7 +171,7 @@ func parkCh(k Kind, site int32, ch any) uint64 {
 }
 
 func post(k Kind, site int32, addr uintptr, arg uint64) {
-	s := cur
+	s := curp.Load()
 	if s == nil {
 		return
 	}
@@ -204,7 +207,7 @@ func Spawn(site int32) uint64 { return park(KSpawn, site, 0, 0) }
 
 // Start is the child's first statement.
 func Start(tok uint64, site int32) {
-	if tok == 0 && cur == nil {
+	if tok == 0 && curp.Load() == nil {
 		return
 	}
 	park(KStart, site, 0, tok)
@@ -229,7 +232,7 @@ func PreClose(ch any, site int32)  { parkCh(KClosePre, site, ch) }
 func PostClose(ch any, site int32) { parkCh(KClosePost, site, ch) }
 
 func Recv[T any](ch <-chan T, site int32) T {
-	if cur == nil {
+	if curp.Load() == nil {
 		return <-ch
 	}
 	parkCh(KRecvPre, site, ch)
@@ -239,7 +242,7 @@ func Recv[T any](ch <-chan T, site int32) T {
 }
 
 func Recv2[T any](ch <-chan T, site int32) (T, bool) {
-	if cur == nil {
+	if curp.Load() == nil {
 		v, ok := <-ch
 		return v, ok
 	}
@@ -280,7 +283,7 @@ func RecvCase(ch any) SelCase { return SelCase{Ch: ch, Addr: addrOf(ch)} }
 // which is guaranteed not to block. Without a simulator it returns -2 and the
 // caller runs the original select.
 func Select(site int32, deflt bool, cases ...SelCase) int {
-	if cur == nil {
+	if curp.Load() == nil {
 		return -2
 	}
 	if len(cases) > MaxSelCases {
@@ -299,7 +302,7 @@ func PostSelect(site int32) { park(KSelectPost, site, 0, 0) }
 // ---- locks ----
 
 func Lock(m *sync.Mutex, site int32) {
-	if cur == nil {
+	if curp.Load() == nil {
 		m.Lock()
 		return
 	}
@@ -316,14 +319,14 @@ func Lock(m *sync.Mutex, site int32) {
 
 func Unlock(m *sync.Mutex, site int32) {
 	m.Unlock()
-	if cur == nil {
+	if curp.Load() == nil {
 		return
 	}
 	park(KUnlock, site, uintptr(unsafe.Pointer(m)), 0)
 }
 
 func TryLock(m *sync.Mutex, site int32) bool {
-	if cur == nil {
+	if curp.Load() == nil {
 		return m.TryLock()
 	}
 	a := uintptr(unsafe.Pointer(m))
@@ -337,7 +340,7 @@ func TryLock(m *sync.Mutex, site int32) bool {
 }
 
 func WLock(m *sync.RWMutex, site int32) {
-	if cur == nil {
+	if curp.Load() == nil {
 		m.Lock()
 		return
 	}
@@ -354,14 +357,14 @@ func WLock(m *sync.RWMutex, site int32) {
 
 func WUnlock(m *sync.RWMutex, site int32) {
 	m.Unlock()
-	if cur == nil {
+	if curp.Load() == nil {
 		return
 	}
 	park(KUnlock, site, uintptr(unsafe.Pointer(m)), 0)
 }
 
 func RLock(m *sync.RWMutex, site int32) {
-	if cur == nil {
+	if curp.Load() == nil {
 		m.RLock()
 		return
 	}
@@ -378,7 +381,7 @@ func RLock(m *sync.RWMutex, site int32) {
 
 func RUnlock(m *sync.RWMutex, site int32) {
 	m.RUnlock()
-	if cur == nil {
+	if curp.Load() == nil {
 		return
 	}
 	park(KRUnlock, site, uintptr(unsafe.Pointer(m)), 0)
@@ -388,7 +391,7 @@ func RUnlock(m *sync.RWMutex, site int32) {
 // callers wait in a (durably blocking) park rather than on Once's internal
 // mutex, which synctest cannot see.
 func OnceDo(o *sync.Once, f func(), site int32) {
-	if cur == nil {
+	if curp.Load() == nil {
 		o.Do(f)
 		return
 	}
@@ -403,7 +406,7 @@ func OnceDo(o *sync.Once, f func(), site int32) {
 // Broadcast handled by the scheduler, FIFO like the real one), then
 // re-acquire the lock through the scheduler.
 func CondWait(c *sync.Cond, site int32) {
-	if cur == nil {
+	if curp.Load() == nil {
 		c.Wait()
 		return
 	}
@@ -425,7 +428,7 @@ func CondWait(c *sync.Cond, site int32) {
 }
 
 func CondSignal(c *sync.Cond, site int32) {
-	if cur == nil {
+	if curp.Load() == nil {
 		c.Signal()
 		return
 	}
@@ -434,7 +437,7 @@ func CondSignal(c *sync.Cond, site int32) {
 }
 
 func CondBroadcast(c *sync.Cond, site int32) {
-	if cur == nil {
+	if curp.Load() == nil {
 		c.Broadcast()
 		return
 	}
@@ -457,7 +460,7 @@ var (
 )
 
 func PoolGet(p *sync.Pool, site int32) any {
-	if cur == nil {
+	if curp.Load() == nil {
 		return p.Get()
 	}
 	poolMu.Lock()
@@ -477,7 +480,7 @@ func PoolGet(p *sync.Pool, site int32) any {
 }
 
 func PoolPut(p *sync.Pool, x any, site int32) {
-	if cur == nil {
+	if curp.Load() == nil {
 		p.Put(x)
 		return
 	}
@@ -519,7 +522,7 @@ func OnceValues[A, B any](f func() (A, B)) func() (A, B) {
 
 // LockerLock / LockerUnlock: Lock/Unlock through a sync.Locker interface value.
 func LockerLock(l sync.Locker, site int32) {
-	if cur == nil {
+	if curp.Load() == nil {
 		l.Lock()
 		return
 	}
@@ -541,7 +544,7 @@ func LockerLock(l sync.Locker, site int32) {
 }
 
 func LockerUnlock(l sync.Locker, site int32) {
-	if cur == nil {
+	if curp.Load() == nil {
 		l.Unlock()
 		return
 	}
@@ -570,7 +573,7 @@ func LockerUnlock(l sync.Locker, site int32) {
 // the Msg's Ch) the period for tickers.
 
 func timerMsg(ch any, deadline time.Time, period time.Duration, site int32) {
-	if cur == nil {
+	if curp.Load() == nil {
 		return
 	}
 	var arg uint64
@@ -578,6 +581,24 @@ func timerMsg(ch any, deadline time.Time, period time.Duration, site int32) {
 		arg = uint64(deadline.UnixNano())
 	}
 	parkMsg(Msg{Kind: KTimer, Site: site, Addr: addrOf(ch), Arg: arg, Ch: ch, NCases: int(period)})
+}
+
+// Now / Since / Until: reading the clock is a scheduling point, so that the
+// fake clock can jump between two readings inside an otherwise hook-free loop
+// (a wall-clock budget checked with time.Since in a pure computation).
+func Now(site int32) time.Time {
+	park(KSyncPost, site, 0, 0)
+	return time.Now()
+}
+
+func Since(t time.Time, site int32) time.Duration {
+	park(KSyncPost, site, 0, 0)
+	return time.Since(t)
+}
+
+func Until(t time.Time, site int32) time.Duration {
+	park(KSyncPost, site, 0, 0)
+	return time.Until(t)
 }
 
 func TimeAfter(d time.Duration, site int32) <-chan time.Time {
@@ -634,7 +655,7 @@ func TickerReset(t *time.Ticker, d time.Duration, site int32) {
 
 // Gosched is runtime.Gosched as a scheduling point.
 func Gosched(site int32) {
-	if cur == nil {
+	if curp.Load() == nil {
 		runtime.Gosched()
 		return
 	}
@@ -650,14 +671,14 @@ func PostSync(site int32) { park(KSyncPost, site, 0, 0) }
 // After / After2 add a scheduling point after a non-blocking atomic operation
 // and pass its result(s) through.
 func After[T any](v T, site int32) T {
-	if cur != nil {
+	if curp.Load() != nil {
 		park(KSyncPost, site, 0, 0)
 	}
 	return v
 }
 
 func After2[A, B any](a A, b B, site int32) (A, B) {
-	if cur != nil {
+	if curp.Load() != nil {
 		park(KSyncPost, site, 0, 0)
 	}
 	return a, b
@@ -670,7 +691,7 @@ func After2[A, B any](a A, b B, site int32) (A, B) {
 // produced; entries added during the loop are not produced (both legal).
 func RangeMap[M ~map[K]V, K comparable, V any](m M, site int32) iter.Seq2[K, V] {
 	return func(yield func(K, V) bool) {
-		if cur == nil {
+		if curp.Load() == nil {
 			for k, v := range m {
 				if !yield(k, v) {
 					return
